@@ -317,6 +317,13 @@ namespace GeographicLib {
     // Bulirsch's sncndn routine, p 89.
     static const real tolJAC =
       sqrt(numeric_limits<real>::epsilon() * real(0.01));
+    if (fabs(x) < sqrt(sqrt(numeric_limits<real>::min()))) {
+      // sn = x, cn = dn = 1 to within a relative error x^2; this avoids
+      // overflow (inf/inf) in the backward recurrence which starts with 1/sn
+      // and forms products of two such quantities.
+      sn = x; cn = dn = 1;
+      return;
+    }
     if (_kp2 != 0) {
       real mc = _kp2, d = 0;
       if (signbit(_kp2)) {
